@@ -104,7 +104,9 @@ def check_case(ctx, case):
                 ("binary_S" + tag, Bn.binary_spatial_test, sp_f, w.sum(axis=1).tolist(), len(act_cells), "binary"),
                 ("binary_CL" + tag, Bn.binary_conditional_likelihood_test, flat_f, w.ravel().tolist(), len(act_bins), "binary"),
                 ("brier" + tag, Br.brier_score_test, flat_f, w.ravel().tolist(), len(act_bins), "brier")):
-            sims = [[["in", 0.37 + 0.1 * i, 0.5]] * max(n_act, 1) for i in range(nsim)]
+            # the first draw of a simulation is an interior one, 0.0 (first bin of positive rate, also behind leading zero-rate
+            # bins) or 1 - 2^-53 (last bin of positive rate, also before trailing zero-rate bins)
+            sims = [[[("in", "zero", "max")[(i + len(S.obs)) % 3], 0.37 + 0.1 * i, 0.5]] + [["in", 0.37 + 0.1 * i, 0.5]] * max(n_act - 1, 0) for i in range(nsim)]
             U, B = plan_draws(weights, sims, n_act, False, True) if n_act else ([[] for _ in range(nsim)], [[] for _ in range(nsim)])
             if U is None:
                 ctx.count("skipped:unconstructible_draws:" + name)
